@@ -496,10 +496,10 @@ func EncodeHevcSPS(c *pcase, k int) []byte {
 	case "none":
 		w.ue(0)
 	default:
-		n := map[string]int{"plain": 2, "inter": 3, "chain": 4}[c.Rps]
+		n := map[string]int{"plain": 2, "inter": 3, "chain": 4, "zero": 3}[c.Rps]
 		w.ue(uint64(n))
 		for idx := 0; idx < n; idx++ {
-			inter := idx > 0 && (c.Rps == "chain" || (c.Rps == "inter" && idx == 2))
+			inter := idx > 0 && (c.Rps == "chain" || c.Rps == "zero" || (c.Rps == "inter" && idx == 2))
 			if idx != 0 {
 				w.flag(inter)
 			}
@@ -526,6 +526,9 @@ func EncodeHevcSPS(c *pcase, k int) []byte {
 			deltaRps := -1
 			if idx%2 == 1 {
 				deltaRps = 2
+			}
+			if c.Rps == "zero" { // set 0 holds dPoc +1; set 1 = set 0 moved by -1 (that picture falls on 0 and drops out); set 2 from set 1
+				deltaRps = []int{0, -1, 2}[idx]
 			}
 			if deltaRps < 0 {
 				w.u(1, 1)
